@@ -35,6 +35,8 @@ type oracleInv struct {
 	snap       sim.Snapshot
 	mem        string
 	memNoNonce string
+	// Finalized lists (feeder, height of the finalizing transaction, base block of the round)
+	Finalized [][3]uint64
 	// statistics
 	byConsensus, byCarry, rejected, admittedOnly, counted int
 	classesInHistory                                      map[string]bool
@@ -245,6 +247,15 @@ func (o *oracleInv) compareStored(m *Machine) error {
 func (o *oracleInv) price(m *Machine, a *Action, out Outcome) error {
 	val := string(m.Keys[a.Key].ConsAddr())
 	fid := a.Feeder
+	if !o.checkAdmission {
+		// model-only mode (used to annotate recorded histories): follow the chain's own answers
+		if a.Mode == 0 && out.OK {
+			if r := o.roundFor(fid); r != nil && r.open {
+				return o.consume(m, a, val, fid, r)
+			}
+		}
+		return nil
+	}
 	nmap := o.nonce
 	if a.Mode > 0 {
 		nmap = o.cnonce
@@ -364,7 +375,11 @@ func (o *oracleInv) price(m *Machine, a *Action, out Outcome) error {
 	}
 	o.counted++
 	o.classesInHistory["counted"] = true
-	// ---- the round model consumes the counted submission
+	return o.consume(m, a, val, fid, r)
+}
+
+// consume: the round model takes in a counted submission.
+func (o *oracleInv) consume(m *Machine, a *Action, val string, fid uint64, r *roundModel) error {
 	power := o.powers[val]
 	if r.seen[val] == nil {
 		r.seen[val] = map[string]bool{}
@@ -410,6 +425,7 @@ func (o *oracleInv) price(m *Machine, a *Action, out Outcome) error {
 		t.next = r.roundID + 1
 		o.prune(t)
 		r.open = false
+		o.Finalized = append(o.Finalized, [3]uint64{fid, uint64(m.C.Height), r.based})
 		o.byConsensus++
 		o.clearNonces(fid)
 	}
